@@ -89,11 +89,11 @@ structure Caller where
   method : String
   /-- `changed=`: `None`, or a dict {name of the watched parameter -> sub-paths to compare | None} -/
   changed : Option (List (String × Option (List (List String))))
+  /-- identity of the `functools.partial` object (0 for bound methods, which compare structurally) -/
+  pid : Nat
   /-- `callback=`: `partial(_update_deps_of, obj, attribute)` — a watcher on an intermediate object of a path
   tells the object owning the method to rebuild its dynamic watchers -/
   callback : Option (Nat × Option String) := Option.none
-  /-- identity of the `functools.partial` object (0 for bound methods, which compare structurally) -/
-  pid : Nat
   deriving DecidableEq, Repr
 
 structure Watcher where
